@@ -93,6 +93,16 @@ def run_matcher_rules(ck, repo, thorough=False):
     ck.rule(R, 'for every attribute value the molecule encoder and every query-encoder site put the bit in the same word '
                'at the same position (shift expressions interpreted as affine forms with their path restrictions/clamps)')
     mpos = {}
+    # both encoders (and the __eq__ ladders, rule D2) must speak about the same attributes: a field encoded from another attribute of the atom
+    # (total_hydrogens for implicit_hydrogens, ...) makes the compiled matcher compare a different quantity than the reference matcher
+    mfields = {s.field for s in msh if s.field}
+    missing = sorted(f for f in dom if f not in mfields)
+    foreign = sorted(f for f in mfields if f not in dom and f not in ('mdl_isotope',))
+    if missing:
+        ck.bad(R, f'mol:fields:{",".join(missing)}', f'molecule encoder has no bits for {missing}' + (f' but encodes {foreign}' if foreign else '') +
+               ': the compiled matcher no longer compares the attribute the query masks and the reference matcher (Element == QueryElement) compare',
+               line=next((s.line for s in msh if s.field in foreign), None), **mloc)
+        return a
     for f, d in dom.items():
         sites = [s for s in msh if s.field == f]
         ck.require(sites, f'molecule encoder has no shift site for {f}')
